@@ -138,6 +138,18 @@ func (p *Program) computeProtected() {
 		if respI != nil && reqT != nil && sig.Params().Len() == 2 && types.Identical(sig.Params().At(0).Type(), respI) && types.Identical(sig.Params().At(1).Type(), reqT) {
 			prot = true
 		}
+		// verdict functions of a handler object: methods without parameters, returning values (not just an
+		// error), on a type that has a Handle(Response, Request) method - the policy evaluators
+		if rv := sig.Recv(); rv != nil && sig.Params().Len() == 0 && sig.Results().Len() >= 1 && !isErrorType(sig.Results().At(0).Type()) && respI != nil && reqT != nil {
+			ms := p.SSA.MethodSets.MethodSet(rv.Type())
+			if sel := ms.Lookup(f.Pkg.Pkg, "Handle"); sel != nil {
+				if hs, ok := sel.Type().(*types.Signature); ok && hs.Params().Len() == 2 && types.Identical(hs.Params().At(0).Type(), respI) {
+					if f.Name() != "Context" && !tinyPure(f) {
+						prot = true
+					}
+				}
+			}
+		}
 		// constructors: return a pointer to a struct of their own package that they allocate
 		if sig.Results().Len() >= 1 {
 			if pt, ok := sig.Results().At(0).Type().(*types.Pointer); ok {
